@@ -19,7 +19,7 @@ RULE = ("for each shape in {TS, TSS, TSD<Int,TS>, TSD<Int,TSS>, TSD<Str,TSB>, TS
         "canonical delta; R2 == R3 and R1 == R2 entry by entry. Non-trivial: >= 4 source ticks; distinct by case text")
 ASSUMPTIONS = ["the harness copies the whole GlobalState of stage k into the builder of stage k+1 (GlobalStateView::copy_from)",
                "buffers are compared through ValueView::to_string()", "g++-12 -O1 build of the working tree with harness-side shims"]
-FLOORS = {"replayed_ticks_compared": {"quick": 3000, "thorough": 50000}, "copy_ticks_compared": {"quick": 3000, "thorough": 50000},
+FLOORS = {"recovery_folds_compared": {"quick": 600, "thorough": 9000}, "replayed_ticks_compared": {"quick": 3000, "thorough": 50000}, "copy_ticks_compared": {"quick": 3000, "thorough": 50000},
           "buffers_compared": {"quick": 200, "thorough": 3500}, "long_dense_recordings": {"quick": 15, "thorough": 250}}
 BATCH = 20
 MECH_EMPTY = "replay-drops-empty-structural-delta-tick"
@@ -81,6 +81,10 @@ def gen_case20(rng, name):
                 elif st.op == "creplay":
                     st.op = "sreplay"
                     st.kw["rid"] = "verif.rec"
+        # the recovery FOLD of the recording (what a component seeds its inputs from): at every instant the recorded series
+        # ticked, folding the recorded deltas up to that instant yields the value the series really had then
+        c.graphs["main"].append(S("", "clive", "d", uid=70))
+        c.opts["fold"] = f"verif.rec.r1@70@{sh}"
     return c
 
 
@@ -459,11 +463,27 @@ def check(case, tr):
             known.setdefault(MECH_EMPTY, "recordings along the record/replay chain differ only in structurally empty (sub)deltas")
     elif d0:
         V.append("recorded buffers missing from the global state")
+    folds = fold_bad = 0
+    if case.opts.get("fold"):
+        for seq, kind, tk in tr.runs[0].events:
+            if kind == "FOLD":
+                folds += 1
+                if int(tk[2]) != 1:
+                    import re
+                    toks = lambda x: sorted(re.findall(r"[A-Za-z0-9.-]+", x.replace("<unset>", "EMPTY").replace("{}", "EMPTY")))
+                    if "<unset>" in tk[3] and toks(tk[3]) == toks(tk[4]):
+                        # the fold differs only in collection fields of a bundle that never ticked: valid and empty in the copy
+                        known.setdefault(MECH_NULLFIELD, f"fold at t={tk[1]}: a collection field of a bundle that never ticked in the original "
+                                                         f"(unset) is valid and empty in the folded value: {tk[4][:80]} vs {tk[3][:80]}")
+                        continue
+                    fold_bad += 1
+                    if fold_bad <= 2:
+                        V.append(f"folding the recording up to t={tk[1]} yields {tk[4][:100]}; the recorded series held {tk[3][:100]} at that instant")
     for msg in V[:6]:
         res.violations.append(Violation(msg))
     for mech, msg in known.items():
         res.violations.append(Violation(msg, mech))
-    res.counters = {"long_dense_recordings": case.meta.get("long_run", 0), "memory_backend_chains": 1 if memory else 0,
+    res.counters = {"recovery_folds_compared": folds, "long_dense_recordings": case.meta.get("long_run", 0), "memory_backend_chains": 1 if memory else 0,
                     "replayed_ticks_compared": rep_cmp, "copy_ticks_compared": copy_cmp, "buffers_compared": bufcmp,
                     "known_deviation_cases": 1 if known else 0}
     res.nontrivial = len(d0) >= 4
